@@ -52,6 +52,16 @@ def dump(effs, ind=0, out=None):
     return out
 
 
+def leaves_by_raise_only(effs):
+    """the effect list ends in a raise and contains no return / break / continue (every way out of it is an exception)"""
+    if not effs or effs[-1].kind != 'raise':
+        return False
+    for e, _ in iter_effects(effs):
+        if e.kind in ('return', 'break', 'continue'):
+            return False
+    return True
+
+
 def handlers_only_reraise(s):
     """every except-handler of the try statement ends by raising and has no other way out"""
     if not s.handlers:
@@ -148,6 +158,11 @@ def refine_env(env, g):
             continue
         if lits is None:
             lits = literals_of(g)
+            try:
+                for k_, v_ in facts_of(g, True).items():        # (c ? None : d) is None  decides c, too
+                    lits.setdefault(k_, v_)
+            except Exception:
+                pass
         w = v
         while w[0] == 'ite' and w[1] in lits:
             w = w[2] if lits[w[1]] else w[3]
@@ -417,6 +432,18 @@ class Interp:
         val = None
         lit_call = (len(found) == 1 and isinstance(found[0], ast.Call) and isinstance(found[0].func, ast.Name) and found[0].func.id in ('frozenset', 'set', 'tuple', 'list')
                     and len(found[0].args) == 1 and isinstance(found[0].args[0], (ast.Tuple, ast.List, ast.Set)))
+        if len(found) == 1 and isinstance(found[0], ast.Subscript) and isinstance(found[0].value, ast.Name) and found[0].value.id == 'LpStatus' \
+                and isinstance(found[0].slice, (ast.Name, ast.Attribute)):
+            # NAME = LpStatus[LpStatusOptimal]: PuLP's own status string (pulp/constants.py, A3)
+            try:
+                from .pulpfacts import constants
+                key_ = found[0].slice.id if isinstance(found[0].slice, ast.Name) else found[0].slice.attr
+                sv = constants()['LpStatus'].get(key_)
+                if isinstance(sv, str):
+                    self.modconst[name] = C(sv)
+                    return C(sv)
+            except Exception:
+                pass
         if len(found) == 1 and (lit_call or isinstance(found[0], (ast.Tuple, ast.List, ast.Dict, ast.Constant, ast.Attribute, ast.Set))):
             try:
                 self.modconst[name] = None
@@ -488,6 +515,30 @@ class Interp:
 
     def load(self, t):
         return self.heap.get(t, t)
+
+    def attr_mutated_in_place(self, name):
+        """is an attribute of this name changed in place anywhere in the package (x.name.append(..), x.name[i] = .., x.name += ..)?"""
+        if not hasattr(self, '_mutated_attrs'):
+            out = set()
+            for tree in self.repo.trees.values():
+                for n in ast.walk(tree):
+                    if isinstance(n, ast.Call) and isinstance(n.func, ast.Attribute) and n.func.attr in MUTATING_METHODS and isinstance(n.func.value, ast.Attribute):
+                        out.add(n.func.value.attr)
+                    elif isinstance(n, ast.Subscript) and isinstance(n.ctx, (ast.Store, ast.Del)) and isinstance(n.value, ast.Attribute):
+                        out.add(n.value.attr)
+                    elif isinstance(n, ast.AugAssign) and isinstance(n.target, ast.Attribute):
+                        out.add(n.target.attr)
+                    elif isinstance(n, ast.AugAssign) and isinstance(n.target, ast.Subscript) and isinstance(n.target.value, ast.Attribute):
+                        out.add(n.target.value.attr)
+            self._mutated_attrs = out
+        return name in self._mutated_attrs
+
+    def is_frozen_value(self, x):
+        if x[0] == 'const' or is_enum_member(x) or x[0] == 'sym':
+            return True
+        if x[0] == 'tuple':
+            return all(self.is_frozen_value(y) or (y[0] == 'list' and all(self.is_frozen_value(z) for z in y[1])) for y in x[1])
+        return False
 
     def counter_attrs(self):
         """names of attributes that are incremented / decremented somewhere in the package (x.a += 1)"""
@@ -1135,6 +1186,10 @@ class Interp:
                     left = getattr(self, '_left', None)
                     self._left = None
                     fr.guards.append(g)
+                    if not nested and ((c1 == 'return' and not c2 and leaves_by_raise_only(e.then)) or (c2 == 'return' and not c1 and leaves_by_raise_only(e.orelse))):
+                        # `if bad: raise ...`: where g fails the function does not return at all - g is an ASSUMPTION of whatever is
+                        # returned further down, not a case distinction of the returned value
+                        fr.assumed = getattr(fr, 'assumed', set()) | {g}
                     rr = refine_env(fr.env, g) if g[0] != 'call' else {}
                     keep = {k: fr.env[k] for k in rr}
                     fr.env.update(rr)
@@ -1154,7 +1209,7 @@ class Interp:
                             a, b = self.heap.get(k, k), lheap.get(k, k)
                             if a != b:
                                 self.heap[k] = simp_top(('ite', g, a, b))
-                    self.emit(Eff('if', fr.func, s, cond=g, then=body, orelse=[], ctrl=(fr.ctrl, None), synthetic=True))
+                    self.emit(Eff('if', fr.func, s, cond=g, then=body, orelse=[], ctrl=(fr.ctrl, None), synthetic=True, assumed=(g in getattr(fr, 'assumed', ()))))
                     fr.ctrl = None
                     break
 
@@ -1320,7 +1375,8 @@ class Interp:
             return
         if isinstance(s, ast.Return):
             v = self.ex(s.value, fr) if s.value is not None else NONE
-            g = AND(*fr.guards) if fr.guards else TRUE
+            live = [x for x in fr.guards if x not in getattr(fr, 'assumed', ())]
+            g = AND(*live) if live else TRUE
             fr.returns.append((g, v, fr.loopdepth > 0))
             self.emit(Eff('return', fr.func, s, value=v))
             fr.ctrl = 'return'
@@ -1418,7 +1474,11 @@ class Interp:
         if isinstance(tgt, ast.Attribute) and tgt.attr == 'objective' and A_base(tt) in self.lp_problems:
             self.emit(Eff('setobj', fr.func, s, recv=tt[1], expr=v, name=NONE))
             return
-        if v[0] in ('list', 'comp', 'cat', 'accum', 'upd', 'call', 'top') or (v[0] == 'bin' and v[1] == 'Mult' and 'list' in (v[2][0], v[3][0])):
+        if v[0] == 'list' and isinstance(tgt, ast.Attribute) and not self.attr_mutated_in_place(tgt.attr) and all(self.is_frozen_value(x) for x in v[1]):
+            # a list of immutable records kept in an attribute that nothing in the package changes in place (a defensive copy of
+            # the option list): reads see the literal
+            self.heap[tt] = v
+        elif v[0] in ('list', 'comp', 'cat', 'accum', 'upd', 'call', 'top') or (v[0] == 'bin' and v[1] == 'Mult' and 'list' in (v[2][0], v[3][0])):
             # mutable containers / opaque values: later reads go through the access path itself (two attributes initialised
             # with equal list expressions, e.g. [None] * n, are still two different lists)
             self.heap.pop(tt, None)
